@@ -594,6 +594,10 @@ End Heap.
 (** * Instances used by the driver: Go [int] elements *)
 Definition cmpZ (a b : Z) : Z := match Z.compare a b with Lt => (-1)%Z | Eq => 0%Z | Gt => 1%Z end.
 Definition cmpZrev (a b : Z) : Z := cmpZ b a.
+(** comparators that return magnitudes (legal under generic.CompareFunc's negative/zero/positive contract) *)
+Definition cmpZmag (a b : Z) : Z := (a - b)%Z.
+Definition cmpZmag3 (a b : Z) : Z := (3 * (a - b))%Z.
+Definition cmpZrmag (a b : Z) : Z := (b - a)%Z.
 (** Go's growth for small slices (doubling); any policy with [grow c n >= n] satisfies the theorems *)
 Definition grow_double (c need : nat) : nat := Nat.max need (2 * c).
 Definition draw_id (t : nat) : nat := 0.
